@@ -32,6 +32,10 @@ pub struct Scenario {
     /// RLIMIT_FSIZE during the call: the kernel's own "disk full at byte n"
     pub fsize_limit: Option<u64>,
     pub hash_seed: u64,
+    /// an earlier call of the same writer on the same caller thread that fails: "is-directory",
+    /// "missing-dir", "write-enospc" (state a failed call leaves behind must not reach this one)
+    #[serde(default)]
+    pub prior_failed_call: Option<String>,
     /// "sweep" (enumerated length, fault-free), "free" (seeded, fault-free), "cap", "enum"
     /// (single fault at an enumerated position), "pair", "open", "fsize"
     pub config: String,
@@ -163,6 +167,7 @@ pub fn scenario_shape(tier: &str, base_seed: u64, g: u64) -> Scenario {
             rules: vec![],
             fsize_limit: None,
             hash_seed: seed,
+            prior_failed_call: None,
             config: "sweep".into(),
         };
     }
@@ -201,6 +206,7 @@ pub fn scenario_shape(tier: &str, base_seed: u64, g: u64) -> Scenario {
         rules: vec![],
         fsize_limit: None,
         hash_seed: seed,
+        prior_failed_call: if matches!(config, "free" | "cap") && r.chance(1, 2) { Some(["is-directory", "missing-dir", "write-enospc"][r.usize(3)].to_string()) } else { None },
         config: config.into(),
     }
 }
@@ -236,6 +242,26 @@ pub fn execute(sc: &Scenario, scratch: &Scratch, budget: u64) -> Result<RunOut, 
     };
     let mut st = SimState::new(&scratch.root_str());
     st.rules = rules_to_sim(&sc.rules)?;
+    let prior: Option<(PathBuf, BuildResult)> = match sc.prior_failed_call.as_deref() {
+        Some(kind) => {
+            let n = (sc.len * 7 + 13) % 400 + 20;
+            let pimg = image(n, "random", sc.fill_seed ^ 0x9999);
+            let pbr = BuildResult { code: pimg.clone(), eeprom: pimg, flash_size: 4194304, eeprom_size: 65536, ram_size: 8388608, ram_filling: 0, messages: vec![] };
+            let p = match kind {
+                "is-directory" => {
+                    std::fs::create_dir_all(scratch.path("out/adir")).map_err(|e| e.to_string())?;
+                    scratch.path("out/adir")
+                }
+                "missing-dir" => scratch.path("out/nodir/first.hex"),
+                _ => {
+                    st.rules.push(crate::simlibc::Rule::new(Call::Write, "out/first.hex", 0, crate::simlibc::Action::Errno(libc::ENOSPC)));
+                    scratch.path("out/first.hex")
+                }
+            };
+            Some((p, pbr))
+        }
+        None => None,
+    };
     st.write_cap = sc.write_cap;
     st.hash_seed = sc.hash_seed;
     st.budget = budget;
@@ -243,6 +269,10 @@ pub fn execute(sc: &Scenario, scratch: &Scratch, budget: u64) -> Result<RunOut, 
     let p2 = out_path.clone();
     let limit = sc.fsize_limit;
     let run = run_simulated(st, move || {
+        if let Some((pp, pbr)) = prior {
+            // the result of the earlier call is not judged here; it is expected to fail
+            let _ = std::panic::catch_unwind(std::panic::AssertUnwindSafe(|| if is_code { avra_lib::writer::write_code_hex(pp, &pbr).is_ok() } else { avra_lib::writer::write_eeprom_hex(pp, &pbr).is_ok() }));
+        }
         let old = limit.map(|n| set_fsize(Some(n)));
         let r = if is_code { avra_lib::writer::write_code_hex(p2, &br) } else { avra_lib::writer::write_eeprom_hex(p2, &br) };
         let r = r.map_err(|e| e.to_string());
@@ -519,6 +549,7 @@ pub fn worker(cfg: &WorkerCfg, emit: &mut dyn FnMut(Violation)) -> Stats {
         stats.probe("fault_on_final_crlf_write", out.state.trace.iter().any(|e| e.call == Call::Write && e.rule >= 0 && e.req == 2));
         stats.probe("pre_existing_longer_file", sc.pre_existing > 0);
         stats.probe("largest_flash_image", sc.len == MAX_FLASH);
+        stats.probe("call_after_a_failed_call_on_the_same_thread", sc.prior_failed_call.is_some());
         stats.probe("image_crosses_1MiB_segment_limit", sc.len > 0x10_0000);
         stats.probe("writer_returned_err_under_fault", matches!(out.result, Ok(Err(_))) && faulted(&sc));
         stats.probe("writer_rode_through_benign_faults", matches!(out.result, Ok(Ok(()))) && any_fired);
@@ -598,6 +629,11 @@ pub fn shrink(scv: &Value) -> Vec<Value> {
     if sc.pre_existing > 0 {
         let mut s = sc.clone();
         s.pre_existing = 0;
+        push(s);
+    }
+    if sc.prior_failed_call.is_some() {
+        let mut s = sc.clone();
+        s.prior_failed_call = None;
         push(s);
     }
     // shorten the image
